@@ -318,7 +318,8 @@ func (field *ColumnDescription) Dump() []byte {
 	data = append(data, 0, 0)
 
 	if field.DefaultValue != nil {
-		data = append(data, base.Uint64ToBytes(field.DefaultValueLength)...)
+		// length of default value is a lenenc-int (ParseResultField reads it as one)
+		data = append(data, base.PutLengthEncodedInt(field.DefaultValueLength)...)
 		data = append(data, field.DefaultValue...)
 	}
 
